@@ -419,7 +419,7 @@ try
           if ((chmask & 1) != 0) random_history<char>(0, text, rng);
           if ((chmask & 2) != 0) random_history<wchar_t>(1, text, rng);
         }
-        if (len <= 8)
+        if (len <= 7)
         {
           if ((chmask & 1) != 0) entry_records<char>(0, text);
           if ((chmask & 2) != 0) entry_records<wchar_t>(1, text);
@@ -476,6 +476,7 @@ try
       vj::VP const v{vj::parse(l)};
       cps_t const text{v->nums("text")};
       std::vector<Op> ops;
+      if (v->has("ops"))
       for (auto const &o : v->at("ops").a)
       {
         Op op{static_cast<int>(o->a.at(0)->n), 0, {}};
@@ -485,6 +486,19 @@ try
         ops.push_back(op);
       }
       int const chmask = v->has("ch") ? (v->num("ch") == 0 ? 1 : 2) : 3;
+      if (v->has("entry"))
+      {
+        if ((chmask & 1) != 0) entry_records<char>(0, text);
+        if ((chmask & 2) != 0) entry_records<wchar_t>(1, text);
+        continue;
+      }
+      if (v->has("scan"))
+      {
+        std::size_t const k = static_cast<std::size_t>(v->num("scan"));
+        if ((chmask & 1) != 0) scan_record<char>(0, text, k);
+        if ((chmask & 2) != 0) scan_record<wchar_t>(1, text, k);
+        continue;
+      }
       if ((chmask & 1) != 0) replay_script<char>(0, text, ops);
       if ((chmask & 2) != 0) replay_script<wchar_t>(1, text, ops);
     }
